@@ -108,6 +108,17 @@ def dayloop_order(R, rep):
             k = is_decimal_arith_assign(cal)
             if k and it["term"]["args"]:
                 tgt = R._ref_target(it["body"], op_place(it["term"]["args"][0]))
+                if tgt is None:
+                    # the share count is handed to a helper as `&mut pool.quantity`: the compound assignment works on the helper's
+                    # parameter — what it points to is read at the helper's call sites inside the day's region
+                    from flow import root_of_operand
+                    ib = it["body"]
+                    r0 = root_of_operand(ib, it["term"]["args"][0])
+                    if r0 and 1 <= r0[0] <= ib.argc and not r0[1]:
+                        tg = {R._ref_target(it2["body"], op_place(it2["term"]["args"][r0[0] - 1])) for it2 in rg.items
+                              if it2["term"]["callee"] == ib.id and len(it2["term"]["args"]) >= r0[0] and op_place(it2["term"]["args"][r0[0] - 1]) is not None}
+                        if len(tg) == 1:
+                            tgt = next(iter(tg))
                 if tgt == ("cgt_core::models::Section104Holding", "quantity"):
                     if k == "AddAssign":
                         tag = "pool unmatched acquisitions"
